@@ -63,6 +63,11 @@ def plan(tier, seed):
                                    "max_cells": 60000, "max_T": 3},
                       "force": {"two_stochastic": False, "mixed_discrete": False},
                       "jit_false": False, "env": {"VERIF_X64": "1"}})
+    # values of -inf that are legitimately part of the solution (utility -inf in some states),
+    # reached with positive probability from some rows and with probability exactly 0 from others
+    for i in range(10 if tier == "quick" else 120):
+        cases.append({"kind": "neg_inf_values", "index": i, "seed": [seed, 7, i], "cfg": cfg,
+                      "jit_false": i % 3 == 0, "env": {"VERIF_X64": "1" if i % 5 else "0"}})
     m = 12 if tier == "quick" else 120
     for i in range(m):
         cases.append({"kind": "no_choice_last", "index": i, "seed": [seed, 2, i], "cfg": cfg,
@@ -118,6 +123,48 @@ def _no_choice_last_desc(rng):
     return desc
 
 
+def _neg_inf_desc(rng):
+    """Fully discrete models whose utility is -inf in a 'dead' state (all choices) and at a few
+    single (state, choice) pairs; stochastic transitions with rows that reach the dead state
+    with positive probability and rows that give it probability exactly 0."""
+    from vlib.gen import rnd
+
+    nh = int(rng.integers(3, 5))
+    nk = int(rng.integers(2, 4))
+    nd = int(rng.integers(2, 4))
+    T = int(rng.integers(2, 5))
+    dead = int(rng.integers(0, nh))
+    UT = (rng.normal(size=(nh, nk, nd)) * 2).round(4)
+    UT[dead, :, :] = -np.inf
+    extra = rng.random((nh, nk, nd)) < 0.12
+    extra[:, :, 0] = False  # every live state keeps a finite choice
+    UT = np.where(extra, -np.inf, UT)
+    P = rng.random((nh, nd, nh)) + 0.05
+    zero_into_dead = rng.random((nh, nd)) < 0.6
+    P[:, :, dead] = np.where(zero_into_dead, 0.0, P[:, :, dead])
+    P[dead, :, :] = 0.0
+    P[dead, :, dead] = 1.0  # absorbing
+    P = P / P.sum(-1, keepdims=True)
+    stoch = bool(rng.random() < 0.8)
+    fns = [["utility", ["h", "k", "d"], "UT[h, k, d]"], ["next_k", ["k", "d"], f"(k + d) % {nk}"]]
+    params = {"beta": rnd(rng, 0.5, 1.0), "utility": {}, "next_k": {}, "next_h": {}}
+    tables = {"UT": UT.tolist()}
+    if stoch:
+        fns.append(["next_h", ["h", "d"], "None"])
+        params["shocks"] = {"h": P.tolist()}
+    else:
+        NT = rng.integers(0, nh, (nh, nd))
+        NT[dead, :] = dead
+        tables["NT"] = NT.tolist()
+        fns.append(["next_h", ["h", "d"], "NT[h, d]"])
+    states = [["h", {"kind": "disc", "n": nh}], ["k", {"kind": "disc", "n": nk}]]
+    if rng.random() < 0.5:
+        states.reverse()
+    return {"n_periods": T, "states": states, "choices": [["d", {"kind": "disc", "n": nd}]],
+            "functions": [fns[i] for i in rng.permutation(len(fns))], "stochastic": ["next_h"] if stoch else [],
+            "tables": tables, "params": params}
+
+
 def _ccv_expected(ref, Q, t):
     """Reference conditional value array in lcm's layout (W2)."""
     nS = len(ref.state_order)
@@ -145,6 +192,8 @@ def run_case(case):
         desc, realised = case["desc"], case.get("features", {})
     elif case["kind"] == "no_choice_last":
         desc, realised = _no_choice_last_desc(pipeline.case_rng(case)), {}
+    elif case["kind"] == "neg_inf_values":
+        desc, realised = _neg_inf_desc(pipeline.case_rng(case)), {}
     else:
         desc, realised = pipeline.model_from_case(case)
     ref = Ref(desc)
@@ -166,7 +215,7 @@ def run_case(case):
     refsols = []
     for p in param_sets:
         s = ref.solve(p, keep_q=case.get("jit_false", False))
-        ok, reasons = ref.supported(s, allow_no_choice_last=allow_nc)
+        ok, reasons = ref.supported(s, allow_no_choice_last=allow_nc, allow_neg_inf_values=case["kind"] == "neg_inf_values")
         refsols.append((p, s, ok, reasons))
     if not refsols[0][2]:
         return pipeline.screened_result(desc, realised, refsols[0][3])
